@@ -247,8 +247,13 @@ impl RecvWindow {
         self.level -= 1;
         // Unwrap is safe because we are only processing BTP data segments here and they always have a sequence number
         self.ack_seq = unwrap!(hdr.get_seq());
+        if self.ack_level == 0 {
+            // The acknowledgement deadline runs from the oldest segment that is still
+            // unacknowledged: segments arriving later (including the peer's stand-alone
+            // ACKs) must not push it out
+            self.received_at = Instant::now();
+        }
         self.ack_level += 1;
-        self.received_at = Instant::now();
 
         if hdr.is_final() && !payload.is_empty() {
             self.buf_messages_ct += 1;
